@@ -51,6 +51,23 @@ def extract_c15(repo: Path) -> str:
     if len(geod) != 1 or dump(geod[0].value) not in (dump(ast.parse("Geod(ellps='WGS84')", mode='eval').body),
                                                      dump(ast.parse('Geod(ellps="WGS84")', mode='eval').body)):
         raise Untranslatable('utils/__init__.py: GEOD must be Geod(ellps="WGS84")')
+    # --- every geodesic computation of the two anchored modules goes through that one WGS-84 object ---
+    for rel in ('trajectories/ground_track.py', 'missions/mission.py'):
+        tree = _parse(src / rel)
+        imports = [n for n in ast.walk(tree) if isinstance(n, ast.ImportFrom) and any(al.name == 'GEOD' for al in n.names)]
+        if len(imports) != 1 or imports[0].module != 'AEIC.utils' or any(al.asname for al in imports[0].names):
+            raise Untranslatable(f'{rel}: GEOD must be imported (once, unaliased) from AEIC.utils')
+        for n in ast.walk(tree):
+            if isinstance(n, (ast.Import, ast.ImportFrom)) and 'pyproj' in ast.unparse(n):
+                raise Untranslatable(f'{rel}: direct pyproj import: {ast.unparse(n)}')
+            if isinstance(n, ast.Name) and n.id in ('Geod', 'Proj', 'Transformer'):
+                raise Untranslatable(f'{rel}: geodesic object other than AEIC.utils.GEOD: {n.id}')
+            if isinstance(n, (ast.Assign, ast.AugAssign, ast.AnnAssign)) and 'GEOD' in \
+                    [ast.unparse(t) for t in (n.targets if isinstance(n, ast.Assign) else [n.target])]:
+                raise Untranslatable(f'{rel}: GEOD is rebound: {ast.unparse(n)[:80]}')
+            if isinstance(n, ast.Attribute) and isinstance(n.value, ast.Name) and n.value.id == 'GEOD' \
+                    and n.attr not in ('inv', 'fwd'):
+                raise Untranslatable(f'{rel}: unexpected use of GEOD.{n.attr}')
     # --- Point.__post_init__ ---
     gmod = _parse(src / 'trajectories/ground_track.py')
     point = None
